@@ -23,6 +23,7 @@ EXPLANATION = (
     " Added after seed round 7: I4 also forbids an early exit from a fold loop while an is_zero of the package compares with a tolerance."
     " Added after seed round 8: I7 an evaluator stores nothing on the shared compiled formula that depends on its own semiring or weights."
     " Added after seed round 10: I4 follows a fold that was moved into a helper method of the same class (inlining bound 1)."
+    " Added after seed round 11: I8 no method of SemiringSymbolic formats a number through a precision-limiting conversion (%g, %f, '{:.3f}', round; positive example matched on every run)."
 )
 TECHNIQUE = "static analysis: protocol conformance over the class hierarchy, sibling agreement of circuit folds, decision tables"
 LEVEL_TEXT = EXPLANATION
@@ -450,6 +451,41 @@ def rule_i7(repo, col):
     col.floor("I7.evaluator_classes", n_cls, 4)
 
 
+def lossy_float_formats(fnode):
+    """string conversions that keep only part of a float: %g / %e / %f (6 significant digits or decimals), %.Nf, '{:.N..}', format(x, '.N..'), round(x, n), and f-string specs"""
+    import re as _re
+    out = []
+    pat = _re.compile(r"%(\.\d+)?[gGeEfF]|\{[^{}]*:[^{}]*\.?\d*[gGeEfF%]\}")
+    for x in ast.walk(fnode):
+        if isinstance(x, ast.Constant) and isinstance(x.value, str) and pat.search(x.value):
+            out.append(x)
+        elif isinstance(x, ast.Call) and isinstance(x.func, ast.Name) and x.func.id == "round":
+            out.append(x)
+        elif isinstance(x, ast.FormattedValue) and x.format_spec is not None:
+            out.append(x)
+    return out
+
+
+def rule_i8(repo, col):
+    """the symbolic semiring writes every weight into the expression text with all its digits (str()): the text is what the user evaluates, and the property compares its value with
+    the numeric semirings.  No method of SemiringSymbolic formats a number through a precision-limiting conversion."""
+    if len(lossy_float_formats(ast.parse("def value(self, a):\n    return '%g' % float(a)\n"))) != 1:
+        raise AnalysisError("lossy-format rule does not fire on its positive example")
+    c = repo.cls(EV, "SemiringSymbolic")
+    m = c.module
+    n = 0
+    for name, f in sorted(c.methods.items()):
+        n += 1
+        for x in lossy_float_formats(f.node):
+            col.fail("I8", m, x, "SemiringSymbolic.%s formats a weight through %s: only part of the digits reach the symbolic expression, so its value differs from the marginal the "
+                     "numeric semirings compute (0.1234567::a gives 0.123457)" % (name, norm(x)[:40]), construct="SemiringSymbolic.%s: precision-limiting format" % name,
+                     function="SemiringSymbolic.%s" % name)
+    v = c.methods.get("value")
+    if v is None:
+        raise AnalysisError("SemiringSymbolic.value missing")
+    col.ok("I8", m, v.node, "%d methods of SemiringSymbolic scanned: no precision-limiting number format" % n, construct="SemiringSymbolic: number formats", function="SemiringSymbolic")
+
+
 def run(repo, col):
     col.rule("I1", "evaluator classes provide the protocol used by Evaluatable.get_evaluator/evaluate")
     col.rule("I2", "registry entries are concrete and reachable by transformations")
@@ -465,3 +501,5 @@ def run(repo, col):
     rule_i6(repo, col)
     col.rule("I7", "evaluators cache nothing semiring-dependent on the shared formula")
     rule_i7(repo, col)
+    col.rule("I8", "the symbolic semiring writes weights with all their digits")
+    rule_i8(repo, col)
